@@ -121,7 +121,7 @@ def ruleName : Rule → String
   | .emptyStruct => "emptyStruct" | .dupField => "dupField" | .dupEnumName => "dupEnumName"
   | .dupEnumValue => "dupEnumValue" | .dupImpl => "dupImpl" | .implNoStruct => "implNoStruct"
   | .dupCanId => "dupCanId" | .implTooBig => "implTooBig" | .dupType => "dupType"
-  | .missingService => "missingService"
+  | .missingService => "missingService" | .serviceRpc => "serviceRpc"
 
 def opVerify (j : Json) : Except String Json := do
   let S ← J.schema (← j.getObjVal? "schema")
@@ -129,6 +129,7 @@ def opVerify (j : Json) : Except String Json := do
     | "general" => pure CheckSet.general
     | "dbc" => pure CheckSet.dbc
     | "can_c" => pure CheckSet.canC
+    | "cpp" => pure CheckSet.cpp
     | s => throw s!"bad check set {s}"
   match verifyModel cs (getFuel j) S with
   | .ok () => return Json.mkObj [("ok", true)]
